@@ -122,8 +122,14 @@ func Compile(a *refsem.Arch, p *seccomp.Policy, big bool) (insts []bpf.Instructi
 // CompileAfter first assembles the policy VALUE in an earlier shape (prior) and then, on the very same value, the final
 // policy: whatever the library keeps inside the value between calls must not influence the second result.
 func CompileAfter(a *refsem.Arch, prior, final *seccomp.Policy, big bool) (insts []bpf.Instruction, err error, panicked any) {
+	return CompileAfterOn(a, a, prior, final, big)
+}
+
+// CompileAfterOn is CompileAfter with the earlier compilation done for another architecture (priorArch): the value, and
+// the Syscalls array the two shapes share, then carry whatever the library attached to them for that architecture.
+func CompileAfterOn(a, priorArch *refsem.Arch, prior, final *seccomp.Policy, big bool) (insts []bpf.Instruction, err error, panicked any) {
 	cp := *prior
-	seccomp.VerifSetArch(&cp, a.Info)
+	seccomp.VerifSetArch(&cp, priorArch.Info)
 	if big {
 		endianMu.Lock()
 		restore := seccomp.VerifSetByteOrder(binary.BigEndian)
@@ -144,8 +150,22 @@ func CompileAfter(a *refsem.Arch, prior, final *seccomp.Policy, big bool) (insts
 	defer Leave(tok)
 	cp.Assemble()
 	cp.DefaultAction, cp.Syscalls = final.DefaultAction, final.Syscalls
+	if priorArch != a {
+		seccomp.VerifSetArch(&cp, a.Info)
+	}
 	insts, err = cp.Assemble()
 	return
+}
+
+// OtherArch picks an architecture different from a (the next one in the fixed list).
+func OtherArch(a *refsem.Arch) *refsem.Arch {
+	all := refsem.Archs()
+	for i, x := range all {
+		if x == a || x.Name == a.Name {
+			return all[(i+1)%len(all)]
+		}
+	}
+	return all[0]
 }
 
 // EarlierShape derives a valid earlier shape of a policy. Variant 0: another default action, the last group dropped (or,
@@ -217,7 +237,7 @@ type Options struct {
 	MaxIssues     int      // per policy
 	SkipDecision  bool
 	Staged        bool // assemble the policy value in an earlier shape first (see CompileAfter)
-	StagedVariant int
+	StagedVariant int // modulo 3: 0 and 1 are the EarlierShape variants, 2 = the same value compiled for another architecture first
 	Prior         *seccomp.Policy // explicit earlier shape (implies Staged)
 }
 
@@ -252,8 +272,11 @@ func CheckPolicy(a *refsem.Arch, p *seccomp.Policy, o Options) *Outcome {
 	switch {
 	case o.Prior != nil:
 		insts, err, pan = CompileAfter(a, o.Prior, p, o.Big)
+	case o.Staged && o.StagedVariant%3 == 2:
+		// the very same value (same Syscalls array) was compiled for another architecture before
+		insts, err, pan = CompileAfterOn(a, OtherArch(a), p, p, o.Big)
 	case o.Staged:
-		insts, err, pan = CompileAfter(a, EarlierShape(p, o.StagedVariant), p, o.Big)
+		insts, err, pan = CompileAfter(a, EarlierShape(p, o.StagedVariant%3), p, o.Big)
 	default:
 		insts, err, pan = Compile(a, p, o.Big)
 	}
